@@ -367,6 +367,13 @@ pub fn check(tier: Tier) -> i32 {
             rep.scope("suite", c, done == cases.len() as u64);
         }
     }
+    for (sz, d) in if tier == Tier::Quick { vec![(3usize, 2usize), (4, 1)] } else { vec![(4, 2), (5, 1)] } {
+        let (acc, done) = crate::props::sweep::sweep_gen(sz, d, &budget, |s, acc| eval_str(s, acc));
+        let c = acc.evals;
+        states += c;
+        rep.acc.merge(acc);
+        rep.scope(&format!("gen({sz},{d})"), c, done);
+    }
     let sents = sentences(nodes);
     let (acc, done) = par_blocks((sents.len() as u64 + 255) / 256, &budget, |b, acc| {
         for s in sents.iter().skip(b as usize * 256).take(256) {
